@@ -136,6 +136,7 @@ def build() -> Check:
     construct = fn_construct(pm.ckpt_fn)
     bad = []
     n_sync_put = 0
+    bad_raise = []
     for t in cc:
         sync = dict(t.pc).get("is_sync")
         puts = [e for e in t.events if e.kind == "EXT" and e.data["method"] in ("put", "put_nowait")]
@@ -152,6 +153,17 @@ def build() -> Check:
             bad.append((f"enqueued update is {upd.key() if upd else None}, expected the caller's", t))
         if len(puts) != 1:
             bad.append((f"{len(puts)} enqueues for one call", t))
+        if t.outcome == "raise":
+            # once the update is in the queue it may still be applied: whatever the call raises from here on must end the invocation, i.e. must not
+            # be catchable as an ordinary failure of the operation's body (`except Exception` in the step / child / wait-for-condition executors would
+            # record RETRY or FAIL behind a SUCCEED that is still in flight - r8_C11: a timeout reported as CheckpointError)
+            cls_r = prog.classes.get((t.exc_class() or "").rstrip("*"))
+            after_put_r = t.events[t.events.index(puts[-1]) + 1:]
+            if cls_r is not None and cls_r.is_subclass_of("builtins.Exception") and not any("pragma" in str(k) for k, _v in t.pc):
+                infeasible = isinstance(ev, Obj) and any(str(k).endswith("is None") and v is True and "completion_event" in str(k) for k, v in t.pc)
+                if not infeasible:
+                    bad_raise.append((f"after the update was enqueued the call raises {cls_r.name}, an ordinary Exception: the executors' `except Exception` takes it for a "
+                                      "failure of the operation's body and records RETRY / FAIL while the enqueued record may still be applied", t))
         if sync is True:
             n_sync_put += 1
             if not isinstance(ev, Obj):
@@ -171,6 +183,7 @@ def build() -> Check:
             if waits:
                 bad.append(("asynchronous call blocks", t))
     ck.floor("sync_put_traces", n_sync_put, 1)
+    ck.ob("R2.after-the-enqueue-only-invocation-ending-errors", construct, not bad_raise, (bad_raise[0][0] + ": " + trace_sig(bad_raise[0][1])) if bad_raise else "")
     ck.ob("R2.put-then-wait-same-event", construct, not bad, (bad[0][0] + ": " + trace_sig(bad[0][1])) if bad else f"{len(cc)} traces")
     # default of is_sync is True (call sites that omit it are synchronous)
     a = pm.ckpt_fn.node.args
@@ -388,7 +401,7 @@ def build() -> Check:
     (ce_set, ce_wait), ce_rules, ce_an = completion_event_publication(prog)
     ck.analysed["completion_event"] = ce_an
     for suffix, ok, detail in ce_rules:
-        ck.ob(f"R2.completion-event-" + suffix, fn_construct(ce_wait if suffix.startswith("slot") else ce_set), ok, detail + ("" if ok else " - the producer returns to user code as if the record had been accepted"))
+        ck.ob(f"R2.completion-event-" + suffix, fn_construct(ce_wait if suffix.startswith(("slot", "wait")) else ce_set), ok, detail + ("" if ok else " - the producer returns to user code as if the record had been accepted"))
     return ck
 
 
